@@ -4,6 +4,8 @@
 
 package file
 
+//@ global invariant ErrNotRegularFile != nil && ErrNotDirectory != nil
+
 //@ opaque func plainFileName(s string) bool = s != "." && s != ".." && in_re(s, "^[a-zA-Z0-9_.-]+$")
 
 //@ func IsValidFileName
@@ -28,3 +30,20 @@ package file
 //@ props C14
 //@ os-calls-only[C14.fs-steps] os.(*File).Close os.(*File).Name os.Remove
 //@ at call os.Remove: assert[C14.only-temp-removed] arg0 == fname(tempFile)
+
+// ---- C20: only regular top-level files of the source are copied ----
+
+//@ func CopyDirToDir
+//@ props C20
+//@ ensures true
+
+//@ func CopyToDir
+//@ props C20
+//@ trusted
+//@ ensures true
+
+//@ func CopyDirToDir$1
+//@ props C20
+//@ requires err != nil || d != nil
+//@ at call CopyToDir: assert[C20.copy-regular-top-level] arg0 == path && arg1 == dst && !(deIsDir(d) && path != src) && deInfoErr(d) == nil && modeIsRegular(deInfoMode(d))
+//@ ensures[C20.skip-subdirs] err == nil && deIsDir(d) && path != src ==> result == fs.SkipDir
